@@ -26,6 +26,12 @@ func (fg *FuncGen) exec(in ssa.Instruction) {
 		r := fg.newRef(st)
 		fg.storeRef(st, r, el, e.zero(el))
 		fg.vals[x] = Val{T: r, Typ: x.Type()}
+		if ct, _ := fg.structInvFor(x.Type()); ct != nil {
+			fg.invTouched[r] = touched{T: r, Typ: x.Type(), what: "allocated here"}
+		}
+		if isStruct(el) {
+			fg.fieldStored(el, r, "", true, x.Pos())
+		}
 	case *ssa.FieldAddr:
 		fg.execFieldAddr(x)
 	case *ssa.Field:
@@ -39,10 +45,10 @@ func (fg *FuncGen) exec(in ssa.Instruction) {
 		iv = fg.toInt(iv, x.Index.Type())
 		switch u := x.X.Type().Underlying().(type) {
 		case *types.Array:
-			fg.oblige("safe:index", fg.g.srcText(x.Pos(), "index"), and(e.iop("<=", e.ilit(0), iv, true), e.iop("<", iv, e.ilit(u.Len()), true)), nil, "")
+			fg.oblige("safe:index", fg.srcOr(x.Pos(), "index"), and(e.iop("<=", e.ilit(0), iv, true), e.iop("<", iv, e.ilit(u.Len()), true)), nil, "")
 			fg.vals[x] = Val{T: fmt.Sprintf("(select %s %s)", xv.T, iv), Typ: x.Type()}
 		default: // string
-			fg.oblige("safe:index", fg.g.srcText(x.Pos(), "index"), and(e.iop("<=", e.ilit(0), iv, true), e.iop("<", iv, fmt.Sprintf("(slen %s)", xv.T), true)), nil, "")
+			fg.oblige("safe:index", fg.srcOr(x.Pos(), "index"), and(e.iop("<=", e.ilit(0), iv, true), e.iop("<", iv, fmt.Sprintf("(slen %s)", xv.T), true)), nil, "")
 			fg.vals[x] = Val{T: fmt.Sprintf("(sbyte %s %s)", xv.T, iv), Typ: x.Type()}
 		}
 	case *ssa.UnOp:
@@ -55,9 +61,26 @@ func (fg *FuncGen) exec(in ssa.Instruction) {
 		el := x.Addr.Type().Underlying().(*types.Pointer).Elem()
 		if av.Loc != nil {
 			fg.storeLoc(st, av.Loc, v)
+			if av.Loc.Kind == lField && av.Loc.Struct != nil {
+				fg.fieldStored(av.Loc.Struct, av.Loc.Ref, av.Loc.Field, false, x.Pos())
+				pt := types.NewPointer(av.Loc.Struct)
+				if ct, _ := fg.structInvFor(pt); ct != nil {
+					if _, ok := fg.invTouched[av.Loc.Ref]; !ok {
+						fg.invTouched[av.Loc.Ref] = touched{T: av.Loc.Ref, Typ: pt, what: "written here"}
+					}
+				}
+			}
 		} else {
 			fg.nilCheck(av.T, x.Pos(), "store")
 			fg.storeRef(st, av.T, el, v)
+			if isStruct(el) {
+				fg.fieldStored(el, av.T, "", false, x.Pos())
+				if ct, _ := fg.structInvFor(x.Addr.Type()); ct != nil {
+					if _, ok := fg.invTouched[av.T]; !ok {
+						fg.invTouched[av.T] = touched{T: av.T, Typ: x.Addr.Type(), what: "assigned here"}
+					}
+				}
+			}
 		}
 	case *ssa.Phi:
 		// handled at block entry
@@ -106,7 +129,7 @@ func (fg *FuncGen) exec(in ssa.Instruction) {
 		mv := fg.term(x.Map)
 		k := fg.term(x.Key)
 		v := fg.term(x.Value)
-		fg.oblige("safe:mapwrite", fg.g.srcText(x.Pos(), "index"), fmt.Sprintf("(not (= %s 0))", mv), nil, "")
+		fg.oblige("safe:mapwrite", fg.srcOr(x.Pos(), "index"), fmt.Sprintf("(not (= %s 0))", mv), nil, "")
 		fg.mapStore(st, m, mv, k, v)
 	case *ssa.Lookup:
 		fg.execLookup(x)
@@ -216,7 +239,7 @@ func (fg *FuncGen) execFieldAddr(x *ssa.FieldAddr) {
 		return
 	}
 	c := fg.fieldComp(stT, x.Field)
-	fg.vals[x] = Val{Typ: x.Type(), Loc: &Loc{Kind: lField, Comp: c.Name, Ref: xv.T, Root: ft, Typ: ft}}
+	fg.vals[x] = Val{Typ: x.Type(), Loc: &Loc{Kind: lField, Comp: c.Name, Ref: xv.T, Root: ft, Typ: ft, Struct: stT, Field: u.Field(x.Field).Name()}}
 }
 
 func (fg *FuncGen) execIndexAddr(x *ssa.IndexAddr) {
@@ -226,13 +249,13 @@ func (fg *FuncGen) execIndexAddr(x *ssa.IndexAddr) {
 	switch u := x.X.Type().Underlying().(type) {
 	case *types.Slice:
 		el := u.Elem()
-		fg.oblige("safe:index", fg.g.srcText(x.Pos(), "index"), and(e.iop("<=", e.ilit(0), iv, true), e.iop("<", iv, fmt.Sprintf("(sllen %s)", xv.T), true)), nil, "")
+		fg.oblige("safe:index", fg.srcOr(x.Pos(), "index"), and(e.iop("<=", e.ilit(0), iv, true), e.iop("<", iv, fmt.Sprintf("(sllen %s)", xv.T), true)), nil, "")
 		c := fg.elemComp(el)
 		idx := fg.named("idx", e.INT(), e.iop("+", fmt.Sprintf("(soff %s)", xv.T), iv, true))
 		fg.vals[x] = Val{Typ: x.Type(), Loc: &Loc{Kind: lElem, Comp: c.Name, Ref: fmt.Sprintf("(sbase %s)", xv.T), Idx: idx, Root: el, Typ: el}}
 	case *types.Pointer:
 		arr := u.Elem().Underlying().(*types.Array)
-		fg.oblige("safe:index", fg.g.srcText(x.Pos(), "index"), and(e.iop("<=", e.ilit(0), iv, true), e.iop("<", iv, e.ilit(arr.Len()), true)), nil, "")
+		fg.oblige("safe:index", fg.srcOr(x.Pos(), "index"), and(e.iop("<=", e.ilit(0), iv, true), e.iop("<", iv, e.ilit(arr.Len()), true)), nil, "")
 		if xv.Loc != nil {
 			l := *xv.Loc
 			l.Path = append(append([]pathElem{}, l.Path...), pathElem{field: -1, idx: iv, cont: u.Elem()})
@@ -267,6 +290,7 @@ func (fg *FuncGen) execUnOp(x *ssa.UnOp) {
 			fg.typeFacts(t, el)
 		}
 		fg.vals[x] = Val{T: t, Typ: x.Type()}
+		fg.assumeObjInv(fg.vals[x], fg.entry, false)
 	case token.NOT:
 		fg.vals[x] = Val{T: not(fg.term(x.X)), Typ: x.Type()}
 	case token.SUB:
@@ -455,9 +479,7 @@ func (fg *FuncGen) execConvert(x *ssa.Convert) {
 			}
 			fg.vals[x] = Val{T: fmt.Sprintf("((_ %s %d) RTZ %s)", f, bits, v), Typ: to}
 		} else {
-			r := fg.freshVal("f2i", to)
-			fg.note("float->int conversion modelled as unconstrained in math mode")
-			fg.vals[x] = r
+			fg.vals[x] = Val{T: fg.f2iMath(v, to), Typ: to}
 		}
 	case isFloat(from) && isFloat(to):
 		if e.sortOf(from) == e.sortOf(to) {
@@ -707,7 +729,7 @@ func (fg *FuncGen) execSlice(x *ssa.Slice) {
 	case *types.Basic: // string
 		ln := fmt.Sprintf("(slen %s)", xv.T)
 		lo, hi := get(x.Low, z), get(x.High, ln)
-		fg.oblige("safe:slice", fg.g.srcText(x.Pos(), "slice"), and(e.iop("<=", z, lo, true), e.iop("<=", lo, hi, true), e.iop("<=", hi, ln, true)), nil, "")
+		fg.oblige("safe:slice", fg.srcOr(x.Pos(), "slice"), and(e.iop("<=", z, lo, true), e.iop("<=", lo, hi, true), e.iop("<=", hi, ln, true)), nil, "")
 		if x.Low == nil && x.High == nil {
 			fg.vals[x] = Val{T: xv.T, Typ: x.Type()}
 			return
@@ -717,7 +739,7 @@ func (fg *FuncGen) execSlice(x *ssa.Slice) {
 		ln, cp := fmt.Sprintf("(sllen %s)", xv.T), fmt.Sprintf("(slcap %s)", xv.T)
 		lo, hi := get(x.Low, z), get(x.High, ln)
 		mx := get(x.Max, cp)
-		fg.oblige("safe:slice", fg.g.srcText(x.Pos(), "slice"), and(e.iop("<=", z, lo, true), e.iop("<=", lo, hi, true), e.iop("<=", hi, mx, true), e.iop("<=", mx, cp, true)), nil, "")
+		fg.oblige("safe:slice", fg.srcOr(x.Pos(), "slice"), and(e.iop("<=", z, lo, true), e.iop("<=", lo, hi, true), e.iop("<=", hi, mx, true), e.iop("<=", mx, cp, true)), nil, "")
 		t := fmt.Sprintf("(mkslice (sbase %s) %s %s %s)", xv.T, e.iop("+", "(soff "+xv.T+")", lo, true), e.iop("-", hi, lo, true), e.iop("-", mx, lo, true))
 		fg.vals[x] = Val{T: fg.named("sl", "Slice", t), Typ: x.Type()}
 	case *types.Pointer:
@@ -725,7 +747,7 @@ func (fg *FuncGen) execSlice(x *ssa.Slice) {
 		n := e.ilit(arr.Len())
 		lo, hi := get(x.Low, z), get(x.High, n)
 		mx := get(x.Max, n)
-		fg.oblige("safe:slice", fg.g.srcText(x.Pos(), "slice"), and(e.iop("<=", z, lo, true), e.iop("<=", lo, hi, true), e.iop("<=", hi, mx, true), e.iop("<=", mx, n, true)), nil, "")
+		fg.oblige("safe:slice", fg.srcOr(x.Pos(), "slice"), and(e.iop("<=", z, lo, true), e.iop("<=", lo, hi, true), e.iop("<=", hi, mx, true), e.iop("<=", mx, n, true)), nil, "")
 		if xv.Loc != nil {
 			fg.taint("slicing a local array")
 			fg.vals[x] = fg.freshVal("sl", x.Type())
@@ -798,7 +820,7 @@ func (fg *FuncGen) execLookup(x *ssa.Lookup) {
 	k := fg.term(x.Index)
 	if isString(x.X.Type()) {
 		iv := fg.toInt(k, x.Index.Type())
-		fg.oblige("safe:index", fg.g.srcText(x.Pos(), "index"), and(e.iop("<=", e.ilit(0), iv, true), e.iop("<", iv, fmt.Sprintf("(slen %s)", xv), true)), nil, "")
+		fg.oblige("safe:index", fg.srcOr(x.Pos(), "index"), and(e.iop("<=", e.ilit(0), iv, true), e.iop("<", iv, fmt.Sprintf("(slen %s)", xv), true)), nil, "")
 		fg.vals[x] = Val{T: fmt.Sprintf("(sbyte %s %s)", xv, iv), Typ: x.Type()}
 		return
 	}
@@ -885,4 +907,16 @@ func (fg *FuncGen) execNext(x *ssa.Next) {
 		fg.assume(f)
 	}
 	fg.vals[x] = Val{Typ: tup, Tup: []Val{{T: okT, Typ: types.Typ[types.Bool]}, {T: k, Typ: m.Key()}, {T: v, Typ: m.Elem()}}}
+}
+
+// f2iMath: float -> int conversion in math mode: an uninterpreted function of the float
+// (deterministic, within the target range); its exact value is not modelled.
+func (fg *FuncGen) f2iMath(v string, to types.Type) string {
+	bits, signed, _ := intInfo(to)
+	f := fmt.Sprintf("f2i_%d_%v", bits, signed)
+	fg.enc.declFun(f, []string{F64}, "Int")
+	t := fmt.Sprintf("(%s %s)", f, v)
+	fg.assume(fg.enc.rangeFact(t, to))
+	fg.note("float->int conversion is an uninterpreted (deterministic, in-range) function in math mode")
+	return t
 }
